@@ -690,6 +690,35 @@ impl<'a> VisitMut for HofPass<'a> {
                 }
             }
         }
+        // R-HOF (HashMap): M.entry(K).and_modify(|x| B).or_insert_with(|| V): as below, V is the closure body (evaluated only when absent)
+        if let Expr::MethodCall(oi) = e {
+            if oi.method == "or_insert_with" && oi.args.len() == 1 {
+                if let (Expr::MethodCall(am), Expr::Closure(vc)) = (&*oi.receiver, &oi.args[0]) {
+                    if am.method == "and_modify" && am.args.len() == 1 && vc.inputs.is_empty() {
+                        if let (Expr::MethodCall(en), Expr::Closure(cl)) = (&*am.receiver, &am.args[0]) {
+                            if en.method == "entry" && en.args.len() == 1 && cl.inputs.len() == 1 {
+                                let m = &en.receiver;
+                                let k = &en.args[0];
+                                if !matches!(k, Expr::Path(_) | Expr::Field(_) | Expr::Unary(_)) {
+                                    die("unsupported construct: R-HOF entry() key is not a place expression");
+                                }
+                                let v = &vc.body;
+                                let x = &cl.inputs[0];
+                                let body = &cl.body;
+                                let new: Expr = parse_quote! {
+                                    match (#m.hof_get(#k)) {
+                                        Some(__fjx_c) => { let mut __fjx_x = __fjx_c; { let #x = &mut __fjx_x; #body }; #m.hof_set(#k, __fjx_x); }
+                                        None => { #m.hof_insert(#k, #v); }
+                                    }
+                                };
+                                *e = new;
+                                self.log.push("R-HOF entry(k).and_modify(f).or_insert_with(g) unfolded by its definition".into());
+                            }
+                        }
+                    }
+                }
+            }
+        }
         // R-HOF (dashmap): M.entry(K).and_modify(|x| B).or_insert(V)
         if let Expr::MethodCall(oi) = e {
             if oi.method == "or_insert" && oi.args.len() == 1 {
